@@ -10,7 +10,7 @@ from vf.pyvc.spec import load_contracts
 from vf.pyvc import sorts as S
 paths = [os.path.join(core.VERIF, "contracts", f) for f in ALL_CONTRACT_FILES]
 spec = load_contracts(paths)
-q = [k for k in spec.contracts if sys.argv[1] in k][0]
+q = ([k for k in spec.contracts if k.endswith(sys.argv[1])] or [k for k in spec.contracts if sys.argv[1] in k])[0]
 v = Verifier(Program(), spec)
 vcs, exits = v.verify(spec.contracts[q])
 sel = [x for x in vcs if sys.argv[2] in x[0] and not z3.is_true(z3.simplify(x[2]))]
